@@ -26,7 +26,7 @@ class Call:
 
 
 def is_prim(t):
-    return t[0] in ("int", "bool", "addr", "flag", "dec")
+    return t[0] in ("int", "bool", "addr", "flag", "dec", "bytesm")
 
 
 def ceil32(n):
@@ -39,6 +39,9 @@ def word_to_model(w, t):
         return val_coq(w - W if (t[2] and w >= W // 2) else w)
     if t[0] == "bool":
         return val_coq(bool(w)) if w in (0, 1) else val_coq(int(w))
+    if t[0] == "bytesm":
+        sh = 8 * (32 - t[1])           # left-aligned; dirty low bytes make the word invalid
+        return val_coq(w >> sh) if w % (1 << sh) == 0 else val_coq(1 << (8 * t[1]))
     return val_coq(int(w))
 
 
@@ -55,6 +58,8 @@ def tree_to_model(v, t):
 
 
 def tree_to_abi(v, t):
+    if t[0] == "bytesm":
+        return int(v).to_bytes(t[1], "big")
     if t[0] == "bytes":
         return bytes(v)
     if t[0] == "string":
@@ -100,6 +105,8 @@ def static_words(t):
 
 
 def enc_val(v, t):
+    if t[0] == "bytesm" and isinstance(v, tuple):      # ("raw", word): a deliberately dirty word
+        return (int(v[1]) % W).to_bytes(32, "big")
     if t[0] in ("bytes", "string"):
         v = bytes(v)
         return len(v).to_bytes(32, "big") + v + b"\0" * (ceil32(len(v)) - len(v))
@@ -275,6 +282,8 @@ def flat_slots(v, t):
     """expected slot words (None = not determined by the source semantics / checked elsewhere)"""
     if t[0] == "map":
         return [None]
+    if t[0] == "bytesm":
+        return [(int(v) << (8 * (32 - t[1]))) % W]
     if t[0] in ("bytes", "string"):
         v = bytes(v)
         out = [len(v)]
